@@ -245,6 +245,14 @@ def _op_case(core, pre_kinds, op):
     return r, viol, reach_ok, reach_err
 
 
+def _outcome(ex, p):
+    """coarse outcome of an operation: the discriminant of what it returned (Ok / Err, Some / None)"""
+    if isinstance(p.ret, Node) and "discr" in p.ret.kids:
+        d = z3.simplify(ex.read_node(p.ret.kids["discr"]))
+        return d.as_long() if z3.is_bv_value(d) else str(d)
+    return None
+
+
 def _clone_isolation(core, pre_kinds, op):
     r = Reg(core)
     ex = r.ex
@@ -260,11 +268,21 @@ def _clone_isolation(core, pre_kinds, op):
                 res = r.apply_held(pc1, holder, op, lambda e: [name("x"), name("xn"), name("xu"), cb("x")], "clone+" + op)
             else:
                 res = r.apply_held(pc1, holder, op, lambda e: [name("x"), cb("x")], "clone+" + op)
+            # what the same operation does to the module when nobody holds a clone
+            argsf = {"alias": lambda e: [name("x"), name("existing")], "remove": lambda e: [name("x")],
+                     "subscription": lambda e: [name("x"), name("xn"), name("xu"), cb("x")]}.get(op, lambda e: [name("x"), cb("x")])
+            alone = [(pc0, sorted((str(a), b, k) for a, b, k in snapshot(ex, after0)), _outcome(ex, p0)) for pc0, after0, p0 in r.apply([(pc, mod)], op, argsf, "alone+" + op)]
             for pc2, m_after, c_after, p in res:
                 c = z3.And(*pc2) if pc2 else z3.BoolVal(True)
                 reach.append(c)
                 if [(str(a), b, k) for a, b, k in snapshot(ex, c_after)] != pre:
                     viol.append(c)
+                # ... and the operation does to the module exactly what it does without a clone around (same bindings afterwards, same outcome)
+                mine = (sorted((str(a), b, k) for a, b, k in snapshot(ex, m_after)), _outcome(ex, p))
+                for pc0, snap0, out0 in alone:
+                    both = [x for x in pc2 if not any(x.eq(y) for y in pc1)] + list(pc0)
+                    if ex.feasible(list(pc2) + list(pc0)) and (snap0, out0) != mine:
+                        viol.append(z3.And(c, *pc0))
     return r, viol, reach
 
 
@@ -367,8 +385,11 @@ def obligations(tier, seed):
                 out.append(R.Result(engine="mirsym", name=nm, kind="kernel", status="unsupported" if bad else "vacuous", detail=str(bad[:1])[:300], bodies=sorted(r.ctx.encoded_bodies)))
                 continue
             out.append(R.decide(nm, "kernel", z3.Or(*viol) if viol else z3.BoolVal(False), [z3.Or(*reach)], bodies=sorted(r.ctx.encoded_bodies),
-                                desc="a clone of the module taken (by the real Clone impl) before the operation still has exactly the bindings it had - whatever the operation does",
+                                desc="a clone of the module taken (by the real Clone impl) before the operation still has exactly the bindings it had - whatever the operation does - and the operation "
+                                     "does to the module exactly what it does when no clone exists (same bindings afterwards, same outcome)",
                                 bounds=f"registry {pre}; operation names arbitrary texts", keydetail="clone-isolation", extra={"models": MM.ARC_DOC + MM.MAP_DOC}))
+            if out[-1].get("status") == "violated":
+                out[-1]["replay"] = {"scenario": "c13_registry", "args": {"op": op, "pre": list(pre), "with_clone": True}}
         r, viol, hit, miss = _dispatch_case(core, pre)
         nm = f"dispatch:{'+'.join(pre)}"
         bad = [a for a in r.abnormal if a[1] != "panic"]
@@ -378,7 +399,7 @@ def obligations(tier, seed):
             out.append(R.decide(nm, "kernel", z3.Or(*viol), [z3.Or(*hit), z3.Or(*miss)], bodies=sorted(r.ctx.encoded_bodies),
                                 desc="method_with_name(q) finds a handler exactly when q is bound, and it is the handler bound to q (with q's registered name)",
                                 bounds=f"registry {pre}; q an arbitrary text", keydetail="dispatch", extra={"models": MM.ARC_DOC + MM.MAP_DOC}))
-    for pre, oth in ([((), ("method",)), (("method",), ("method",)), (("method", "subscription"), ("method", "method"))] if tier == "quick"
+    for pre, oth in ([((), ("method",)), (("method",), ("method",)), (("method",), ("method", "method")), (("method", "subscription"), ("method", "method"))] if tier == "quick"
                      else [((), ("method",)), (("method",), ("method",)), (("method",), ("method", "method")), (("method", "subscription"), ("method", "method")), (("method", "async"), ("method", "method"))]):
         r, viol, ok_, err_ = _merge_case(core, pre, oth)
         nm = f"merge:{'+'.join(pre) or 'empty'}<-{'+'.join(oth)}"
@@ -390,6 +411,8 @@ def obligations(tier, seed):
         out.append(R.decide(nm, "kernel", z3.Or(*q) if q else z3.BoolVal(False), [z3.Or(*x) for x in (ok_, err_) if x], bodies=sorted(r.ctx.encoded_bodies),
                             desc="merge fails exactly when the two modules share a name and then changes nothing; otherwise the result holds exactly the bindings of both",
                             bounds=f"self {pre or '(empty)'} merged with a module of {len(oth)} method(s); all names arbitrary texts", keydetail="merge", extra={"models": MM.ARC_DOC + MM.MAP_DOC}))
+        if out[-1].get("status") == "violated":
+            out[-1]["replay"] = {"scenario": "c13_registry", "args": {"op": "merge", "pre": list(pre)}}
     seen = set()
     for r_ in out:
         if r_.get("status") == "violated" and r_.get("key"):
